@@ -1094,3 +1094,100 @@ Proof.
   induction ops as [|o ops IH]; intros W q s E; simpl; [assumption|].
   apply IH. apply step_heap_grows. assumption.
 Qed.
+
+(* ======================= commutativity, associativity for any mixing weight *)
+(* two objects with the same weighted means of every statistic report the same
+   average and spread vectors *)
+Lemma means_determine n x y : inv n x -> inv n y ->
+  (forall f, meanf f x = meanf f y) ->
+  ((g_rel x = [] /\ g_det x = []) <-> (g_rel y = [] /\ g_det y = [])) ->
+  average x = average y /\ variance x = variance y.
+Proof.
+  intros Ix Iy M G.
+  assert (EA : average x = average y).
+  { apply (option_vec_ext n).
+    - rewrite (average_none n x Ix), (average_none n y Iy). exact G.
+    - intros a Ha. apply (average_spec n x a Ix Ha).
+    - intros a Ha. apply (average_spec n y a Iy Ha).
+    - intros a b k Ha Hb.
+      rewrite (proj2 (average_spec n x a Ix Ha)), (proj2 (average_spec n y b Iy Hb)). apply M. }
+  split; [assumption|].
+  apply (option_vec_ext n).
+  - rewrite !variance_none, EA. tauto.
+  - intros a Ha. apply (variance_spec n x a Ix Ha).
+  - intros a Ha. apply (variance_spec n y a Iy Ha).
+  - intros a b k Ha Hb.
+    rewrite (proj2 (variance_spec n x a Ix Ha)), (proj2 (variance_spec n y b Iy Hb)).
+    rewrite (M (x2at k)), (M (xat k)). reflexivity.
+Qed.
+
+Lemma app_nil_iff {A} (l m : list A) : l ++ m = [] <-> l = [] /\ m = [].
+Proof. split; [apply app_eq_nil|intros [-> ->]; reflexivity]. Qed.
+
+(* merge a b p represents the same ensemble as merge b a (1 - p) *)
+Lemma merge_comm_mean f n a b p r r' : inv n a -> inv n b -> (0 < num a)%nat -> (0 < num b)%nat ->
+  meanf f (merge_obj a b p r) = meanf f (merge_obj b a (Some (1 - p_used a b p)) r').
+Proof.
+  intros Ia Ib Ha Hb. rewrite (merge_meanf f n a b p r Ia Ib Ha Hb).
+  rewrite (merge_meanf f n b a (Some (1 - p_used a b p)) r' Ib Ia Hb Ha). simpl. ring.
+Qed.
+
+Lemma p_default_comm a b : (0 < num a)%nat -> (0 < num b)%nat ->
+  p_used b a None = 1 - p_used a b None.
+Proof.
+  intros Ha Hb. simpl. rewrite (Nat.add_comm (num b) (num a)), QcN_add.
+  pose proof (QcN_nonzero _ Ha). pose proof (QcN_nonzero _ Hb).
+  assert (QcN (num a) + QcN (num b) <> 0) by (rewrite <- QcN_add; apply QcN_nonzero; lia).
+  field. assumption.
+Qed.
+
+Lemma plus_comm_mean f n a b r r' : inv n a -> inv n b -> (0 < num a)%nat -> (0 < num b)%nat ->
+  meanf f (merge_obj a b None r) = meanf f (merge_obj b a None r').
+Proof.
+  intros Ia Ib Ha Hb. rewrite (merge_meanf f n a b None r Ia Ib Ha Hb).
+  rewrite (merge_meanf f n b a None r' Ib Ia Hb Ha). rewrite (p_default_comm a b Ha Hb). ring.
+Qed.
+
+Lemma merge_comm n a b p r r' : inv n a -> inv n b -> (0 < num a)%nat -> (0 < num b)%nat ->
+  let l := merge_obj a b p r in
+  let m := merge_obj b a (match p with Some q => Some (1 - q) | None => None end) r' in
+  (forall f, meanf f l = meanf f m) /\ num l = num m /\ average l = average m /\ variance l = variance m.
+Proof.
+  intros Ia Ib Ha Hb l m.
+  assert (M : forall f, meanf f l = meanf f m).
+  { intros f. unfold l, m. destruct p as [q|].
+    - apply (merge_comm_mean f n a b (Some q) r r'); assumption.
+    - apply (plus_comm_mean f n); assumption. }
+  split; [assumption|]. split; [simpl; lia|].
+  apply (means_determine n); auto.
+  - apply inv_merge; assumption.
+  - apply inv_merge; assumption.
+  - unfold l, m. simpl. rewrite !app_nil_iff. tauto.
+Qed.
+
+(* (a (+)_p b) (+)_q c  =  a (+)_{pq} (b (+)_{q(1-p)/(1-pq)} c) *)
+Lemma merge_assoc_any n a b c p q r1 r2 r3 r4 : inv n a -> inv n b -> inv n c ->
+  (0 < num a)%nat -> (0 < num b)%nat -> (0 < num c)%nat -> p * q <> 1 ->
+  let l := merge_obj (merge_obj a b (Some p) r1) c (Some q) r2 in
+  let m := merge_obj a (merge_obj b c (Some (q * (1 - p) / (1 - p * q))) r3) (Some (p * q)) r4 in
+  (forall f, meanf f l = meanf f m) /\ num l = num m /\ seeds l = seeds m /\
+  average l = average m /\ variance l = variance m.
+Proof.
+  intros Ia Ib Ic Ha Hb Hc Hpq l m.
+  assert (Hab : (0 < num (merge_obj a b (Some p) r1))%nat) by (simpl; lia).
+  assert (Hbc : (0 < num (merge_obj b c (Some (q * (1 - p) / (1 - p * q))%Qc) r3))%nat) by (simpl; lia).
+  assert (Iab : inv n (merge_obj a b (Some p) r1)) by (apply inv_merge; assumption).
+  assert (Ibc : inv n (merge_obj b c (Some (q * (1 - p) / (1 - p * q))) r3)) by (apply inv_merge; assumption).
+  assert (N1 : 1 - p * q <> 0) by (intros H; apply Hpq; rewrite <- (Qcplus_0_r (p * q)), <- H; ring).
+  assert (M : forall f, meanf f l = meanf f m).
+  { intros f. unfold l, m.
+    rewrite (merge_meanf f n _ c (Some q) r2 Iab Ic Hab Hc).
+    rewrite (merge_meanf f n a b (Some p) r1 Ia Ib Ha Hb).
+    rewrite (merge_meanf f n a _ (Some (p * q)) r4 Ia Ibc Ha Hbc).
+    rewrite (merge_meanf f n b c _ r3 Ib Ic Hb Hc). simpl. field. assumption. }
+  split; [assumption|]. split; [simpl; lia|]. split; [simpl; rewrite app_assoc; reflexivity|].
+  apply (means_determine n); auto.
+  - apply inv_merge; assumption.
+  - apply inv_merge; assumption.
+  - unfold l, m. simpl. rewrite !app_nil_iff. tauto.
+Qed.
